@@ -194,6 +194,7 @@ func replay(b Behaviour, w *trace.Writer) (err error) {
 					mu.Unlock()
 					flushFeed()
 					w.Emit(ev{"ev": "deliver", "beh": b.ID, "src": m.Src.N, "runs": rs, "bytes": len(m.Payload)})
+					netsim.Scribble(m.Payload) // the callback owns the message: modify it before returning
 				}); err != nil {
 					return
 				}
